@@ -158,7 +158,7 @@ RunStart(i) ==
 
 \* the resolvers register their dependencies and read the data
 RunRead(i) ==
-  /\ ist[i] = "run" /\ iread[i] = -1
+  /\ ist[i] = "run" /\ ikind[i] = "sub" /\ iread[i] = -1
   /\ iread' = [iread EXCEPT ![i] = data]
   /\ UNCHANGED <<subs, ist, iid, ikind, iq, iinit, iprev, ipend, data, client, gotFirst, closeQ, logq, closed, ended, unsubbed, lateWrite, believes, cause, nextInst, msgs>>
 
@@ -196,19 +196,23 @@ SubRunFail(i) ==
           /\ UNCHANGED <<ended, closeQ, believes, cause>>
   /\ UNCHANGED <<subs, iid, ikind, iq, iinit, iprev, iread, ipend, data, client, gotFirst, logq, closed, unsubbed, lateWrite, nextInst, msgs>>
 
-\* a mutation runs once: the data changes, the result (or error) is written, it closes itself asynchronously
-MutRun(i) ==
+\* a mutation runs once: its resolver changes the data ...
+MutApply(i) ==
+  /\ ist[i] = "run" /\ ikind[i] = "mut" /\ iread[i] = -1
+  /\ data < MaxVer
+  /\ data' = data + 1
+  /\ iread' = [iread EXCEPT ![i] = data + 1]
+  /\ ipend' = [j \in Inst |-> IF ist[j] = "run" /\ iread[j] >= 0 /\ j # i THEN TRUE ELSE ipend[j]]
+  /\ UNCHANGED <<subs, ist, iid, ikind, iq, iinit, iprev, client, gotFirst, closeQ, logq, closed, ended, unsubbed, lateWrite, believes, cause, nextInst, msgs>>
+
+\* ... the result (or error) is written and it closes itself asynchronously
+MutDone(i) ==
   /\ ist[i] = "run" /\ ikind[i] = "mut"
   /\ ist' = [ist EXCEPT ![i] = "ended"]
   /\ ended' = [ended EXCEPT ![i] = @ + 1]
   /\ cause' = [cause EXCEPT ![i] = "self"]
   /\ closeQ' = BAdd(closeQ, <<iid[i], i>>)
-  /\ IF data < MaxVer
-     THEN /\ data' = data + 1
-          /\ ipend' = [j \in Inst |-> IF ist[j] = "run" /\ iread[j] >= 0 /\ j # i THEN TRUE ELSE ipend[j]]
-     ELSE UNCHANGED <<data, ipend>>
-  /\ UNCHANGED <<subs, iid, ikind, iq, iinit, iprev, iread, client, gotFirst, logq, closed, unsubbed, lateWrite, believes, nextInst, msgs>>
-\* ... and every idle subscription is invalidated by the data change (separate step: Invalidate)
+  /\ UNCHANGED <<subs, iid, ikind, iq, iinit, iprev, iread, ipend, data, client, gotFirst, logq, closed, unsubbed, lateWrite, believes, nextInst, msgs>>
 
 \* the asynchronous `go c.closeSubscription(id)` of instance i
 AsyncClose(id, i) ==
@@ -244,7 +248,7 @@ Next ==
   \/ \E id \in Ids, q \in Queries : RecvSubscribe(id, q) \/ RecvSubscribeRejected(id, q) \/ RecvMutate(id, q) \/ RecvMutateRejected(id, q)
   \/ \E id \in Ids : RecvUnsubscribe(id)
   \/ SocketClose \/ DataChange
-  \/ \E i \in Inst : RunStart(i) \/ RunRead(i) \/ SubRunOK(i) \/ SubRunFail(i) \/ MutRun(i) \/ Invalidate(i)
+  \/ \E i \in Inst : RunStart(i) \/ RunRead(i) \/ SubRunOK(i) \/ SubRunFail(i) \/ MutApply(i) \/ MutDone(i) \/ Invalidate(i)
   \/ \E p \in DOMAIN closeQ : AsyncClose(p[1], p[2])
 Spec == Init /\ [][Next]_vars
 
@@ -286,6 +290,7 @@ LoggerPaired == closed /\ Quiescent => \A id \in Ids : Balance(logq, id) = 0
 \* C17: the logger's view is the map's view
 LoggerMatchesMap == \A id \in Ids : Balance(logq, id) = (IF subs[id] # 0 /\ ikind[subs[id]] = "sub" THEN 1 ELSE 0)
 \* C17: limit and duplicate-id rule
-LimitHolds == NumSubs <= MaxSubs
+\* (mutations in flight occupy map entries and count towards the check a subscribe makes, but are not themselves limited)
+LimitHolds == Cardinality({id \in Ids : subs[id] # 0 /\ ikind[subs[id]] = "sub"}) <= MaxSubs
 MsgBound == msgs <= 5
 =============================================================================
